@@ -674,11 +674,8 @@ func (c *caseRunner) runRemote1(nodeCap, valCap uint64, rate int, seed uint64, n
 					c.res.Count("remote:prefetch:ok")
 				}
 			default:
-				// iteration (not with node caches smaller than a path: that is the eviction defect
-				// listed under C03, independent of proofs)
-				if nodeCap != 0 && nodeCap < 64 {
-					return
-				}
+				// iteration, at every cache size (the eviction defects D2 / remote-client-node-cache-eviction
+				// were repaired in 6d73f0d)
 				k := queryKey(r, s.keys)
 				m := 1 + r.Intn(6)
 				it := client.NewIterator(ctx, mkvs.IteratorPrefetch(uint16(r.Intn(4))))
